@@ -50,6 +50,17 @@ CHECKS = {
          "C09_pinned_refuted keeps the two-atomics defect machine-checked; model tied to the real now() by running model schedules on OS threads "
          "stepped through the cfg(bp7_verif) scheduler hook, one fresh process per case.",
          "sequential consistency of the instrumented operations (weak-memory reorderings outside the model); std::sync::Mutex.", "DESIGN.md section 6 C09"),
+ "C10": ("Coq theorems C10_print_parse / C10_cbor_roundtrip / C10_accepts_canonical / C10_rejects / C10_node_id / C10_new_endpoint / C10_api_image / "
+         "C10_total over a line-by-line transcription of eid.rs (Display, TryFrom<&str>, with_dtn, with_ipn, new_endpoint, node, node_id, service_name, "
+         "is_node_id) on UTF-8 byte lists: every endpoint ID returned by the textual API (inductive closure = boolean normal form, proved) prints to a "
+         "string that parses back to it and its CBOR form decodes back to it; dtn:none, dtn://node/service (every valid-UTF-8 node without '/', every "
+         "service) and ipn:n.s (1<=n<2^64) are accepted with node/service reported unchanged; each rejection class is a decidable predicate on the "
+         "string and yields an error; node_id parses to a node ID with the same node; new_endpoint keeps the node and reports the new service "
+         "(ipn: decimal value of the Unicode-white-space-trimmed argument); no panic on valid UTF-8. K-eid channel: grammar-based valid strings, one "
+         "near-miss per rejection class, byte mutations, constructors, new_endpoint with all kinds of service strings, CBOR decoder-image EIDs.",
+         "str::split/splitn/trim/starts_with, u64::from_str, char::is_whitespace (Unicode White_Space) and Display for u64 are modelled, not verified; "
+         "strings are valid UTF-8 shorter than 2^64 bytes; EndpointID values assembled directly from the public enum variants are outside the property.",
+         "DESIGN.md section 6 C10"),
  "C17": ("Coq theorems C17_unix, C17_string_denotes (every t up to 9999-12-31T23:59:59.999Z: output is the RFC 3339 rendering of valid calendar fields whose "
          "days-from-civil instant is t+offset; date step proved for every day number from one 146097-day vm_compute sweep lifted by 400-year periodicity), "
          "C17_format_total, C17_now, over a transcription of dtntime.rs and humantime's formatter; constants regenerated from the Rust source; K-time "
@@ -63,7 +74,7 @@ CHECKS = {
 
 PENDING = {
  "C05": "check not built yet (CRC window algebra is proved in Proofs/CrcAlgebra.v; pipeline theorem and channel pending)",
- "C10": "check not built yet",
+
  "C11": "check not built yet", "C12": "check not built yet", "C13": "check not built yet", "C14": "check not built yet",
  "C15": "check not built yet", "C16": "check not built yet", "C19": "check not built yet", "C20": "check not built yet",
 }
